@@ -58,11 +58,22 @@ Value& HASHExpression::value(Context & ctx) const
       break;
     case Type::INTEGER:
       if (!a1.isNull())
-        max_size = (uint32_t)*a1.integer();
+      {
+        Integer l = *a1.integer();
+        if (l < 1 || l > Integer(UINT32_MAX))
+          throw RuntimeError(EXC_RT_OUT_OF_RANGE);
+        max_size = (uint32_t)l;
+      }
       break;
     case Type::NUMERIC:
       if (!a1.isNull())
-        max_size = (uint32_t)*a1.numeric();
+      {
+        /* NaN fails the test */
+        Numeric d = *a1.numeric();
+        if (!(d >= 1.0 && d < Numeric(UINT32_MAX) + 1.0))
+          throw RuntimeError(EXC_RT_OUT_OF_RANGE);
+        max_size = (uint32_t)d;
+      }
       break;
     default:
       throw RuntimeError(EXC_RT_FUNC_ARG_TYPE_S, KEYWORDS[oper]);
